@@ -204,8 +204,8 @@ _static_unit(3, 4, True, False, tiers=("thorough",))
 
 
 # ------------------------------------------------------------------ band groups in / below the window
-def _groups_unit(NB, sea):
-    @unit("C13", "get_bands_in_range_groups_ik[NB=%d,sea=%s]" % (NB, sea), scope="shape:NB=%d, all real sorted energies" % NB, expect_min=3)
+def _groups_unit(NB, sea, prop="C13"):
+    @unit(prop, "get_bands_in_range_groups_ik[NB=%d,sea=%s]" % (NB, sea), scope="shape:NB=%d, all real sorted energies" % NB, expect_min=3)
     def _g(U):
         gbord = U.fn(FT, "get_borders", globs=dict(np=NP))
         gbir = U.fn(FT, "get_bands_in_range", globs=dict(np=NP, get_borders=gbord))
